@@ -19,7 +19,7 @@ for d in sorted(glob.glob(os.path.join(here, "*"))):
     try:
         for l in open(os.path.join(d, "README.md")):
             l = l.strip()
-            if l.startswith("#"):
+            if l:
                 title = re.sub(r"^#+\s*", "", l); break
     except OSError:
         pass
